@@ -128,7 +128,7 @@ def _event(tier):
         'chs': st.sampled_from([['c0'], ['c0'], ['c1'], ['c0', 'c1'], ['c1', 'c0'], ['*'], []]),
         'flags': st.lists(st.booleans(), min_size=3, max_size=3),
         'meta': st.dictionaries(st.sampled_from(CUSTOM_META), _json(1), max_size=2),
-        'kind': st.sampled_from(['plain', 'plain', 'plain', 'slow', 'none', 'raise', 'mixed', 'mixed2']),
+        'kind': st.sampled_from(['plain', 'plain', 'plain', 'slow', 'none', 'raise', 'mixed', 'mixed2', 'slowraise']),
         'slow': st.integers(1, 3),
         'bigarg': big,
         'tamper_call': st.one_of(st.just({}), st.just({}), tam),
@@ -338,7 +338,7 @@ class C19(Prop):
                         out.append({'clients': 1, 'fw': {}, 'cuts': one, 'waves': [{'sends': [], 'forged': [
                             {'victim': victim, 'when': 'before', 'chase': True, 'raw': json.dumps(pkt)}]}]})
         # a process with two connections: B calls A0 while A0 also holds a connection to another (hostile) server
-        for kind in ('plain', 'slow', 'raise'):
+        for kind in ('plain', 'slow', 'raise', 'slowraise'):
             for when in ('before', 'after'):
                 out.append({'clients': 1, 'fw': {}, 'cuts': one, 'waves': [{
                     'sends': [ev('B', 'server', kind=kind), ev('A0', 'client', kind=kind)],
@@ -686,11 +686,12 @@ class C19(Prop):
             kinds = [H.kind_for(sc['kind'], t) for t in tags]      # what each handler that ran did
             if sc['kind'] in ('mixed', 'mixed2') and len(set(kinds)) > 1:
                 classes.add('raise-next-to-coroutine')
-            if 'raise' in kinds:
+            if 'raise' in kinds or 'slowraise' in kinds:
+                classes.add('remote-coroutine-raises') if 'slowraise' in kinds else None
                 if not errflag:
                     return bad('error-flag-missing', 'handler of event %d raised on %s; sender resumed with %s and no error flag' % (uid, dst, _short(value)))
                 continue
-            exp = [] if sc['kind'] in ('none', 'raise') else [{'r': uid, 't': t, 'a': want_args[1:], 'k': sc['kwargs']} for t in tags]
+            exp = [] if sc['kind'] in ('none', 'raise', 'slowraise') else [{'r': uid, 't': t, 'a': want_args[1:], 'k': sc['kwargs']} for t in tags]
             expv = None if not exp else exp[0] if len(exp) == 1 else exp
             ok = same(value, expv)
             if not ok and 'slow' in kinds and len(exp) > 1 and isinstance(value, list):
